@@ -795,7 +795,7 @@ def exS (thr : Nat) : State := exI.run (exEvs thr)
 /-- every event of the example keeps the discipline: the state reached is `Sane` -/
 theorem exS_sane : Sane cxNxt (exS 3) := by
   apply sane_run (exEvs 3) exI (sane_init _ _ _ _ _)
-  refine ⟨fun _ => by decide, fun _ => by decide, fun _ => by decide, trivial, trivial,
+  refine ⟨fun _ _ => by decide, fun _ _ => by decide, fun _ _ => by decide, trivial, trivial,
     fun _ => (cx_inlife _ _).mpr (by decide), fun _ => (cx_inlife _ _).mpr (by decide), fun _ => (cx_inlife _ _).mpr (by decide),
     fun _ => (cx_inlife _ _).mpr (by decide), fun _ => (cx_inlife _ _).mpr (by decide),
     trivial, trivial, trivial, trivial, trivial, trivial, trivial, trivial, trivial, trivial, trivial, trivial, trivial⟩
@@ -845,7 +845,7 @@ theorem exS_healthy : Healthy cxNxt (exS 3) [0, 1, 2, 4] (exN4 3) 1 exIx4 := by
 /-- the same with threshold 4 in the new group: the joiner is needed -/
 theorem exS4_sane : Sane cxNxt (exS 4) := by
   apply sane_run (exEvs 4) exI (sane_init _ _ _ _ _)
-  refine ⟨fun _ => by decide, fun _ => by decide, fun _ => by decide, trivial, trivial,
+  refine ⟨fun _ _ => by decide, fun _ _ => by decide, fun _ _ => by decide, trivial, trivial,
     fun _ => (cx_inlife _ _).mpr (by decide), fun _ => (cx_inlife _ _).mpr (by decide), fun _ => (cx_inlife _ _).mpr (by decide),
     fun _ => (cx_inlife _ _).mpr (by decide), fun _ => (cx_inlife _ _).mpr (by decide),
     trivial, trivial, trivial, trivial, trivial, trivial, trivial, trivial, trivial, trivial, trivial, trivial, trivial⟩
